@@ -942,3 +942,17 @@ def replay(ctx, data):
     print("real outputs:")
     for k, b in enumerate(v[2]):
         print(" ", k, repr(b[0])[:400])
+
+
+
+# ----------------------------------------------------------------------------------------------- source tie (DESIGN §4.2)
+# the definitions of Gen/DecisionsLib.v this property's Props file ties to the model (`*_generated_eq_model`): when
+# tools/gen/decisions_lib.py could not translate the current source text the tie is broken and reported
+GEN_LIB_TARGETS = ['requires_path', 'requires_stats', 'quit_early', 'summary_should_quit', 'standard_should_quit', 'match_more_than_limit',
+                   'json_should_quit', 'json_match_more_than_limit']
+_run_checks = run
+
+
+def run(ctx):
+    _run_checks(ctx)
+    vlib.report_gen_drift(ctx, "decisions_lib", GEN_LIB_TARGETS, bool(ctx.violations))
